@@ -189,6 +189,14 @@ def core_det(tier):
         # a user-supplied annealing schedule for the search acquisition function
         add(2, S.box_geom(2, x0=[3.0, -2.0]), _quad(2, r), {"_search_acq_schedule": "asym", "max_fun_evals": 60}, tags=["acq_schedule"])
         add(3, S.box_geom(3, x0=[3.0, -2.0, 1.0]), _quad(3, r), {"_search_acq_schedule": "asym", "max_fun_evals": 70}, tags=["acq_schedule"])
+        # a target explicitly declared deterministic
+        add(2, S.box_geom(2, x0=[3.0, -2.0]), {"family": "absval", "min": [0.7, -1.3]}, {"uncertainty_handling": False, "max_fun_evals": 60},
+            tags=["declared_det"])
+        # poll vectors not rescaled by the GP length scales, with an unbounded coordinate
+        g = {"lb": [NINF, -2.0], "ub": [INF, 2.0], "plb": [-3, -1], "pub": [3, 1], "x0": [1.0, 0.5]}
+        add(2, g, _quad(2, r, mn=[2.0, 5.0]), {"gp_rescale_poll": 0, "max_fun_evals": 60}, tags=["mixed_unbounded", "gp_rescale_poll0"])
+        g = {"lb": None, "ub": None, "plb": [-3, -3, -3], "pub": [3, 3, 3], "x0": [2.0, -2.5, 1.0]}
+        add(3, g, _quad(3, r, mn=[1.0, -1.0, 0.5]), {"gp_rescale_poll": 0, "max_fun_evals": 70}, tags=["unbounded", "gp_rescale_poll0"])
         # the valid seed 0 (a falsy value)
         add(2, S.box_geom(2, x0=None), _quad(2, r), {"max_fun_evals": 40}, tags=["seed0", "nox0"])
         out[-1]["seed"] = 0
@@ -272,6 +280,9 @@ def core_noisy(tier):
                 {"max_fun_evals": b, "noise_final_samples": 10}, tags=["auto", "budget", "reserve_clamped"])
         add(2, S.box_geom(2, x0=[2.0, 2.0]), _quad(2, r, cond=5.0), {"mode": "specified", "sigma": 1.0, "sd_kind": "hetero"},
             {"max_fun_evals": 37, "noise_final_samples": 10}, tags=["specified", "budget", "reserve_clamped"])
+        # a precise simulator: user-specified SDs far below tol_fun
+        add(2, S.box_geom(2, x0=[2.0, 2.0]), _quad(2, r, cond=3.0), {"mode": "specified", "sigma": 1e-4, "sd_kind": "const"},
+            {"noise_final_samples": 2, "max_fun_evals": 70}, tags=["specified", "tiny_sd"])
         # noisy runs that stop on the mesh tolerance (the returned point may be an earlier iterate)
         for j in range(2):
             add(2, S.box_geom(2, x0=[2.0, 2.0]), _quad(2, r, cond=3.0), {"mode": "declared", "sigma": 0.3},
